@@ -211,3 +211,48 @@ r28_4.rule_id = "R28.4"
 
 RULES = [r28_1, r28_2, r28_3, r28_4]
 FLOORS = {"R28.1": 8, "R28.2": 8, "R28.3": 4, "R28.4": 4}
+
+
+def r28_5(ctx):
+    """metrics::make: the head width that is published satisfies, as the last thing established about it on the path, the divisibility
+    '(hash_bits - head) % array == 0' for the array width that is published - either because that test came out false for exactly these
+    values, or because it is the rounded value head + (hash_bits - head) % array (for which the identity holds)."""
+    for F in ctx.need("cds::intrusive::feldman_hashset::details::metrics::make"):
+        n = 0
+        for p in PathSim(F, bound=512).run():
+            if p.outcome != "return":
+                continue
+            st = {}
+            for e in p.events:
+                if e.kind == "store" and e.obj and e.obj[0] == "fld":
+                    st[e.obj[2]] = e.val
+            V, A = st.get("head_node_size_log"), st.get("array_node_size_log")
+            if V is None or A is None:
+                ctx.bad("R28.5", F, "metrics::make does not publish both widths", None, sig="no-widths")
+                continue
+            n += 1
+            ok = False
+            why = ""
+            # (i) the divisibility test on exactly (V, A) came out 'divisible'
+            for atom, tv, bev in cond_atoms(p):
+                # atom is ((H - v) % a) with truth False meaning == 0   (x != 0 normalises to atom x)
+                if isinstance(atom, tuple) and len(atom) == 4 and atom[0] == "op" and atom[1] == "%" and atom[3] == A and tv is False:
+                    d = atom[2]
+                    if isinstance(d, tuple) and d[0] == "op" and d[1] == "-" and d[3] == V:
+                        ok, why = True, "tested"
+            # (ii) V is the rounded value  v + (H - v) % A
+            if isinstance(V, tuple) and V[0] == "op" and V[1] == "+":
+                v0, r = V[2], V[3]
+                if isinstance(r, tuple) and r[0] == "op" and r[1] == "%" and r[3] == A and isinstance(r[2], tuple) and r[2][0] == "op" and r[2][1] == "-" and r[2][3] == v0:
+                    ok, why = True, "rounded"
+            # constants on both sides: fold
+            if not ok and isinstance(V, tuple) and V[0] == "c" and isinstance(A, tuple) and A[0] == "c":
+                why = "constant widths %s/%s without an established divisibility" % (V[1], A[1])
+            ctx.check(ok, "R28.5", F, "the published head width leaves a multiple of the published array width of hash bits", None,
+                      detail="head=%r array=%r (%s): a later adjustment of either width invalidates the normalisation, the last level then cuts more "
+                      "bits than remain. %s" % (V, A, why, R), sig="normalised")
+        ctx.check(n >= 4, "R28.5", F, "metrics::make paths analysed", None, sig="make-paths")
+r28_5.rule_id = "R28.5"
+
+RULES.append(r28_5)
+FLOORS["R28.5"] = 4
